@@ -473,8 +473,12 @@ fn runtime_case(
                 rep.violate(&format!("C10|runtime|{fam}|stopped-off-schedule"), format!("L3 stopped at iteration {it} with check frequency {f}"), replay);
                 return;
             }
-            if t < limit {
-                rep.violate(&format!("C10|runtime|{fam}|stopped-before-budget"), format!("L3 stopped {:?} after start with a budget of {limit_ms} ms", t), replay);
+            // the search's own clock starts after the harness clock and its check happens after the loop-top event, so
+            // the time at which the call RETURNED bounds the elapsed time the check saw from above: a return before the
+            // budget means the search stopped early (the loop-top timestamp itself can precede the check by microseconds)
+            let _ = t;
+            if ctx.returned_after < limit {
+                rep.violate(&format!("C10|runtime|{fam}|stopped-before-budget"), format!("L3 returned {:?} after start with a budget of {limit_ms} ms", ctx.returned_after), replay);
                 return;
             }
             if !matches!(ctx.events.last(), Some(Ev::LoopTop { .. })) {
